@@ -126,6 +126,11 @@ CSRMatrix* extended_interpolation(CSRMatrix* A, CSRMatrix* S,
                         weak_sum += A->vals[j];
                     }
                 }
+                else
+                {
+                    // weak connection to a coarse point of the extended pattern: goes into its weight
+                    P->vals[pos[col]] += A->vals[j];
+                }
             }
         } 
 
